@@ -235,6 +235,18 @@ def pair_laws(ctx, st, S, T, want_sym=False):
             if not (is_num(v1) and is_num(v2)) or abs(v1 - ref_) > tol_ or abs(v2 - ref_) > tol_:
                 bad("mixed-dtype-symmetry", "%s of an integer array and a fractional float array depends on the argument order / differs from the all-float call" % which,
                     [v1, v2], ref_)
+    # variant 5 (smaller strata): X against a copy of itself scaled by (1 + 2^-25): every point goes to its own
+    # copy (the moves are far smaller than any gap), so both values are known in closed form and 0 < d_B <= W
+    if k <= 8 and S == T and any(p[1] > p[0] for p in X):
+        f = 1.0 + 2.0 ** -25
+        Xs = [[f * p[0], f * p[1]] for p in X]
+        b5, w5 = dists(ctx, X, Xs)
+        off = [p for p in X if p[1] > p[0]]          # (points ON the diagonal stay on it: they cost nothing)
+        eb = max([max(abs(f * p[0] - p[0]), abs(f * p[1] - p[1])) for p in off] or [0.0])
+        ew = math.fsum(math.hypot(f * p[0] - p[0], f * p[1] - p[1]) for p in off)
+        ctx.valid(2)
+        if not (is_num(b5) and is_num(w5)) or abs(b5 - eb) > 1e-9 * eb + 1e-300 or abs(w5 - ew) > 1e-9 * ew + 1e-300 or b5 > w5 * (1 + 1e-9) + 1e-300:
+            bad("nearly-equal-copy", "distances between a diagram and its copy scaled by 1 + 2^-25 are not the tiny moves of its points", [b5, w5], [eb, ew])
     if want_sym:
         b3, w3 = dists(ctx, Y, X)
         ctx.valid()
